@@ -146,6 +146,26 @@ theorem hex_upper (bs : List UInt8) :
   obtain ⟨x, _, rfl⟩ := List.mem_map.mp hb
   exact x.toNat_lt
 
+/-- libnstd has no hex decoder; against the specification decoder `Spec.unhex` the text `fromHex` produces denotes
+    exactly the input bytes, for EVERY byte string (so `fromHex` loses no information: it is injective), and its
+    length is twice the input length -/
+theorem hex_roundtrip (bs : List UInt8) :
+    ∃ t, fromHex (bs.map UInt8.toNat) = .ok t ∧ Spec.unhex t = some (bs.map UInt8.toNat) ∧ t.length = 2 * bs.length := by
+  refine ⟨_, hex_upper bs, ?_, ?_⟩
+  · induction bs with
+    | nil => rfl
+    | cons b rest ih =>
+      have hd : ∀ n, n < 16 → Spec.hexDigitVal? (Spec.upperHexDigit n) = some n := by decide
+      have hb := b.toNat_lt
+      simp only [List.map_cons, Spec.upperHex, Spec.unhex, hd (b.toNat / 16) (by omega), hd (b.toNat % 16) (Nat.mod_lt _ (by decide)), ih]
+      congr 2
+      omega
+  · induction bs with
+    | nil => rfl
+    | cons b rest ih => simp only [List.map_cons, Spec.upperHex, List.length_cons, ih]; omega
+
+example : Spec.unhex [48, 48, 70, 70, 49, 65] = some [0x00, 0xFF, 0x1A] := by decide
+example : Spec.unhex [48, 48, 70] = none ∧ Spec.unhex [48, 71] = none := by decide   -- odd length / non-digit
 example : fromHex [0x00, 0xFF, 0x1A] = .ok [48, 48, 70, 70, 49, 65] := by decide   -- "00FF1A"
 
 /-! ## fromBase64 -/
